@@ -88,10 +88,16 @@ def run_property(pid, tier, seed, extract, cfgs, here, known, t0, verbose=False,
             R = Report(pid, cfg)
             mod.run(F, R)
             floors = getattr(mod, 'FLOORS', {})
+            has_violation = any(o['status'] == 'violated' for o in R.obs)
             for name, spec in floors.items():
                 minimum = spec.get(cfg, spec.get('*')) if isinstance(spec, dict) else spec
                 if minimum is not None:
-                    R.require(name, minimum, 'frozen floor')
+                    if has_violation:
+                        # a violation already decides the verdict; a count that dropped because of the same edit must not mask it
+                        if R.counts.get(name, 0) < minimum:
+                            R.note('instance count %s=%d is below its floor %d (not fatal: violations are reported)' % (name, R.counts.get(name, 0), minimum))
+                    else:
+                        R.require(name, minimum, 'frozen floor')
             reports.append(R)
             stats[cfg] = {'bodies': len(F.bodies), 'handwritten_bodies': sum(1 for b in F.bodies.values() if F.handwritten(b)),
                           'adts': len(F.adts), 'consts': len(F.consts)}
